@@ -64,6 +64,9 @@ type tcase struct {
 type obs struct {
 	Flat     []string `json:"flat"`
 	Lockable []int64  `json:"lockable"` // the chain's lockable durations (ms), a constant of the configuration
+	// per epoch: every period lock as read from the lock store itself (GetPeriodLocks), independent of the
+	// duration index that the distribution uses: [id, owner, denom index, amount, duration ms, unlocking, receiver]
+	Locks [][][]string `json:"locks"`
 	Err  string   `json:"err,omitempty"`
 	Msgs []string `json:"msgs,omitempty"`
 }
@@ -263,6 +266,11 @@ func run(t *testing.T, c tcase) obs {
 		return out.Amount.String()
 	}
 	epochNo := int64(0)
+	allLocks := [][][]string{}
+	ldIdx := map[string]int{}
+	for i, d := range lockDenoms {
+		ldIdx[d] = i
+	}
 	for _, x := range c.Ops {
 		var err error
 		extra := []string{}
@@ -369,6 +377,27 @@ func run(t *testing.T, c tcase) obs {
 			lockListing()
 			extra = append(extra, flat...)
 			flat = save
+			pl, perr := app.LockupKeeper.GetPeriodLocks(ctx0)
+			if perr != nil {
+				panic(perr)
+			}
+			cur := [][]string{}
+			for _, l := range pl {
+				if l.ID <= lid0 || len(l.Coins) != 1 {
+					continue
+				}
+				rr := l.RewardReceiverAddress
+				if rr == "" {
+					rr = l.Owner
+				}
+				unl := "0"
+				if l.IsUnlocking() {
+					unl = "1"
+				}
+				cur = append(cur, []string{fmt.Sprint(l.ID - lid0), fmt.Sprint(uidx[l.Owner]), fmt.Sprint(ldIdx[l.Coins[0].Denom]), l.Coins[0].Amount.String(),
+					fmt.Sprint(int64(l.Duration / time.Millisecond)), unl, fmt.Sprint(uidx[rr])})
+			}
+			allLocks = append(allLocks, cur)
 			before := make([][]osmomath.Int, len(users))
 			for i, u := range users {
 				for _, d := range rewardDenoms {
@@ -397,5 +426,5 @@ func run(t *testing.T, c tcase) obs {
 	for _, d := range app.IncentivesKeeper.GetLockableDurations(h.Ctx) {
 		lockable = append(lockable, int64(d/time.Millisecond))
 	}
-	return obs{Flat: flat, Msgs: msgs, Lockable: lockable}
+	return obs{Flat: flat, Msgs: msgs, Lockable: lockable, Locks: allLocks}
 }
